@@ -19,6 +19,8 @@ import traceback
 from pmc import world
 
 VERIF = world.VERIF
+# checks against a scratch copy (VERIF_REPO) must not touch /verif/evidence
+OUT = os.environ.get('VERIF_OUT', VERIF)
 NPROC = int(os.environ.get('VERIF_NPROC', '16'))
 
 
@@ -124,6 +126,34 @@ def guarded(fn, *a, **kw):
     return 'exc', '%s: %s' % (type(e).__name__, str(e)[:200])
 
 
+def isolated(fn, *a, **kw):
+  """Runs fn in a forked child (native code may crash). Returns
+  ('ok', value) | ('exc', text) | ('died', 'signal N')."""
+  import pickle
+  rfd, wfd = os.pipe()
+  pid = os.fork()
+  if pid == 0:
+    try:
+      os.close(rfd)
+      try:
+        out = ('ok', fn(*a, **kw))
+      except Exception as e:  # pylint: disable=broad-except
+        out = ('exc', '%s: %s' % (type(e).__name__, str(e)[:200]))
+      with os.fdopen(wfd, 'wb') as f:
+        pickle.dump(out, f)
+    finally:
+      os._exit(0)
+  os.close(wfd)
+  with os.fdopen(rfd, 'rb') as f:
+    data = f.read()
+  _, status = os.waitpid(pid, 0)
+  if os.WIFSIGNALED(status):
+    return 'died', 'signal %d' % os.WTERMSIG(status)
+  if not data:
+    return 'died', 'exit status %d without a result' % os.WEXITSTATUS(status)
+  return pickle.loads(data)
+
+
 def _run_task(spec):
   modname, fn, args, subspace = spec
   t0 = time.time()
@@ -187,10 +217,10 @@ def run_property(modname, tier, seed, only=None):
     with ctx.Pool(nproc, initializer=_init_worker) as pool:
       for d in pool.imap_unordered(_run_task, specs, chunksize=1):
         results.append(d)
-  return finish(mod, tier, seed, tasks, results, t0)
+  return finish(mod, tier, seed, tasks, results, t0, bool(only))
 
 
-def finish(mod, tier, seed, tasks, results, t0):
+def finish(mod, tier, seed, tasks, results, t0, only_partial=False):
   pid = mod.ID
   sub = collections.OrderedDict()
   for t in tasks:
@@ -234,6 +264,17 @@ def finish(mod, tier, seed, tasks, results, t0):
         samples.append({'subspace': name, 'case': ss[len(ss) // 2]})
   samples = samples[:24]
 
+  if hasattr(mod, 'post'):
+    # cross-task oracle on merged measurements (e.g. histograms)
+    pr = Result()
+    mod.post(extra, pr, tier, seed)
+    tot.violations.extend(pr.violations)
+    tot.evaluations += pr.evaluations
+    tot.nontrivial += pr.nontrivial
+    tot.outcomes.update(pr.outcomes)
+    tot.notes.extend(pr.notes)
+    extra = {k: v for k, v in extra.items() if not k.startswith('_')}
+
   if harness_errors:
     print('HARNESS-ERROR property=%s (%d task(s) failed inside the harness)' %
           (pid, len(harness_errors)))
@@ -264,7 +305,7 @@ def finish(mod, tier, seed, tasks, results, t0):
   replay_paths = []
   if new_violations:
     rc = 1
-    rdir = os.path.join(VERIF, 'replays', pid)
+    rdir = os.path.join(OUT, 'replays', pid)
     os.makedirs(rdir, exist_ok=True)
     for i, v in enumerate(new_violations[:10]):
       path = os.path.join(rdir, '%d.json' % i)
@@ -308,12 +349,15 @@ def finish(mod, tier, seed, tasks, results, t0):
         'every transition is an execution of the implementation itself '
         '(no separate model), so every explored trace is validated against '
         'the implementation by construction')
+  if only_partial:
+    print('(partial run: evidence not written)')
   ev = {
       'property_id': pid, 'tier': tier, 'seed': seed, 'level': mod.LEVEL,
       'coverage': cov, 'assumptions': list(mod.ASSUMPTIONS),
       'wall_s': round(wall, 2), 'violations': len(new_violations),
   }
-  write_evidence(pid, ev)
+  if not only_partial:
+    write_evidence(pid, ev)
   print('%s tier=%s seed=%d: %d evaluations, %d non-trivial, %d outcome classes, '
         '%d sub-spaces, %d known finding(s), %d violation(s), %.1fs' %
         (pid, tier, seed, tot.evaluations, tot.nontrivial, len(tot.outcomes),
@@ -349,8 +393,8 @@ def write_evidence(pid, ev):
       jsonschema.validate(ev, json.load(open(schema_path)))
   except ImportError:
     _mini_validate(ev)
-  os.makedirs(os.path.join(VERIF, 'evidence'), exist_ok=True)
-  p = os.path.join(VERIF, 'evidence', pid + '.json')
+  os.makedirs(os.path.join(OUT, 'evidence'), exist_ok=True)
+  p = os.path.join(OUT, 'evidence', pid + '.json')
   with open(p + '.tmp', 'w') as f:
     json.dump(ev, f, indent=1, sort_keys=True)
   os.replace(p + '.tmp', p)
